@@ -119,10 +119,12 @@ CHECKS.update({
         text='Coq proofs: the decode ladder of Lexer.get_tokens as a total model (strict UTF-8 codec with round-trip AND injectivity proofs, '
              'Latin-1, a byte-exact unicode-escape decoder); C19_str/_stream/_utf8_noenc/_utf8_enc/_bytes_enc and the *_forms corollaries '
              '(parse, parsestream, split, format give the same result for str, stream, UTF-8 bytes, bytes+matching codec), '
-             'C19_parse_is_stream and C19_single_decode over facts extracted from the source AST on every run; the Latin-1 fallback is REFUTED '
-             '(the code uses unicode-escape: C19_latin1_refuted, exact boundary C19_latin1_exact). The CLI is covered by a direct oracle '
-             'over every flag x channel x encoding (three listed CLI findings).',
-        note='Partial: CLI by exploration only; codecs other than UTF-8/Latin-1 enter as a round-trip hypothesis. Four listed findings.',
+             'C19_parse_is_stream and C19_single_decode over facts extracted from the source AST on every run; C19_latin1 (bytes that are not '
+             'UTF-8 decode as Latin-1, all byte strings; the fallback codec name is regenerated from the source; for the former '
+             'unicode-escape fallback the statement is refuted with the exact boundary: C19_latin1_refuted/_exact; that defect was '
+             'repaired in /repo by a fix: commit). The CLI is covered by a direct oracle over every flag x channel x encoding '
+             '(three listed CLI findings).',
+        note='Partial: CLI by exploration only; codecs other than UTF-8/Latin-1 enter as a round-trip hypothesis. Three open findings, one fixed.',
         design='7/C19', technique='Coq proof (codec round-trip, decode ladder, AST facts) + decode correspondence + CLI oracle'),
     'C20': dict(
         text='Coq proofs for ANY number of threads and ANY interleaving of the statements of Lexer.get_default_instance (instruction list '
@@ -130,9 +132,11 @@ CHECKS.update({
              'fair schedules (invariant by induction on the schedule; refuted for the unlocked / early-release variants); history machine '
              'over the regenerated inventory of persistent state: C20_calls_pure, C20_history, C20_reinit. Real threads are driven '
              'statement by statement (sys.settrace) through enumerated schedules and compared with the extracted model; random call '
-             'histories are compared with fresh interpreters; free-running thread stress. One listed finding (an exception during the '
-             'first initialisation leaves a half-initialised lexer: C20_xhistory_refuted).',
-        note='Trusted: statement-level atomicity under the GIL; the inventory classification rules. One known finding.',
+             'histories are compared with fresh interpreters; free-running thread stress. Both shapes of the program (publish-then-initialise, '
+             'and initialise-then-publish) are covered by the same generic theorems; the interrupted-initialisation history theorem is '
+             'conditional on the generated flag publishes_before_init: refuted when true (the former finding, repaired in /repo by a fix: '
+             'commit), unconditional when false (Inst/C20Fixed.v: C20_xhistory, C20_every_interruption_harmless on the current tree).',
+        note='Trusted: statement-level atomicity under the GIL; the inventory classification rules. One finding, fixed in /repo.',
         design='7/C20', technique='Coq proof (schedule invariant, history state machine) + forced-schedule correspondence on real threads'),
 })
 
@@ -157,9 +161,10 @@ CHECKS.update({
              'validate_options/build_filter_stack translated from the source on every run with C07_options_partial, C07_options_exn '
              '(only SQLParseError -- or the two listed escapes OverflowError/ValueError -- for ALL option dictionaries), '
              'validated_well_typed, C07_options_first (rejection before any lexing); strip_comments total; reindent total on a '
-             'decidable class of trees; accessor totality (accessors_raise_only: only get_window can raise on well-formed trees). '
-             'Direct oracle: parse/split/format x random valid option sets x every accessor on every node. Listed findings: get_window '
-             'AttributeError, `(as)` IndexError in strip_whitespace, reindent_aligned ValueError, three option-validation escapes.',
+             'decidable class of trees; accessor totality (accessors_total: no modelled accessor raises on well-formed trees; get_window '
+             'after the fix: commit); output_format filters total. '
+             'Direct oracle: parse/split/format x random valid option sets x every accessor on every node. Open findings: '
+             '`(as)` IndexError in strip_whitespace, reindent_aligned ValueError, two option-validation escapes; three fixed in /repo.',
         note='Partial: filters other than the modelled ones by oracle only; recursion depth is C15.',
         design='7/C07', technique='Coq proof (totality of pipeline and of generated option validation) + correspondence + oracle'),
     'C10': dict(
@@ -201,6 +206,25 @@ CHECKS.update({
              'Direct oracle on generated instances with known expected structure; 18 listed deviation classes (mechanism signatures).',
         note='Partial: pipeline composition beyond the finite families by oracle + correspondence; 18 known findings.',
         design='7/C13', technique='Coq proof (pass = specification; accessor theorems; finite families) + correspondence + oracle'),
+})
+
+CHECKS.update({
+    'C14': dict(
+        text='Coq proofs over the REGENERATED rule table and keyword dictionaries. Regions (unbounded, any body, any position in the scan '
+             'loop, any continuation): C14_single_quoted, C14_double_quoted, C14_backtick, C14_block_comment, C14_line_comment, '
+             'C14_dollar_quoted: each region is exactly ONE token of its type whatever the body contains (under decidable side conditions '
+             'whose necessity is shown by five refutations: backslash before the closing quote, adjacent literals, lone CR, `$` glued on '
+             'the left, case-insensitive closing tag). Dictionary words: C14_words_ctx_ok (finite: all 799 words x 35 delimited contexts, '
+             'vm_compute in 9 shards over the regenerated tables) lifted to EVERY ASCII letter casing by the relational case-invariance '
+             'of the lexer (C14_words, C14_words_alone): one token of the type given by the first dictionary that lists the word or by an '
+             'earlier dedicated rule; C14_unreachable_entries pins the four entries that can never be one token. Non-words: '
+             'C14_nonwords_are_names (UNBOUNDED: every plain identifier of any length and casing that is in no dictionary and matches no '
+             'dedicated rule lexes as one Name in every delimited context; by a sound prefix-abstract matcher a_ends + a covered-prefix '
+             'search discharged by vm_compute). Refutations outside the delimited contexts (word before `(`, after/before `.`, '
+             'multi-word rules). Tied to the code by the lex correspondence and a direct oracle that recomputes the expected type '
+             'independently in Python from the compiled SQL_REGEX and the registered dictionaries.',
+        note='Non-ASCII casings and identifiers outside plain_ident are covered by the oracle only. Trusted base as C01.',
+        design='7/C14', technique='Coq proof (region lemmas; finite word family lifted by case invariance; prefix-abstract matcher) + lex correspondence + oracle'),
 })
 
 NOT_YET = {}
